@@ -38,15 +38,15 @@ namespace awkward {
           std::to_string(length_) + std::string(" but generated ") +
           std::to_string(out.get()->length()) + FILENAME(__LINE__));
     }
-    if (length_ >= 0  &&  length_ < out.get()->length()) {
-      out = out.get()->getitem_range_nowrap(0, length_);
-    }
     if (form_.get() != nullptr  &&
         !form_.get()->equal(out.get()->form(true), true, true, false, true)) {
       throw std::invalid_argument(
           std::string("generated array does not conform to expected form:\n\n")
           + form_.get()->tostring() + std::string("\n\nbut generated:\n\n")
           + out.get()->form(true).get()->tostring() + FILENAME(__LINE__));
+    }
+    if (length_ >= 0  &&  length_ < out.get()->length()) {
+      out = out.get()->getitem_range_nowrap(0, length_);
     }
     if (form_.get() == nullptr) {
       inferred_form_ = out.get()->form(true);
